@@ -322,6 +322,12 @@ fn pending(t: Termination, lc: u8) -> i128 {
         _ => 0,
     }
 }
+// a fact about SEQUENCES (ghost variables only, nothing about the code): one that begins or ends with
+// text has at least one component. Assumed wherever the ghost facts of a real sequence are introduced;
+// not part of `rep`, so that phantom leaves (absent optional repetitions, count 0) fit the induction.
+fn ghost_ok(fc: bool, lc: u8, c: u128) -> bool {
+    !((lc == 0 || !fc) && c == 0)
+}
 fn rep(t: Termination, v: &TV, fc: bool, lc: u8, c: u128) -> bool {
     if matches!(t, Termination::Coalescent) {
         // only a lone tree wildcard
@@ -334,9 +340,6 @@ fn rep(t: Termination, v: &TV, fc: bool, lc: u8, c: u128) -> bool {
     }
     // facts about real sequences: one that begins or ends with text has a component; one that ends in
     // a tree wildcard has no upper bound
-    if (lc == 0 || !fc) && c == 0 {
-        return false;
-    }
     if lc == 2 && v.has_upper_bound() {
         return false;
     }
@@ -431,7 +434,7 @@ fn flat_join(t1: u8, vk1: u8, n1: usize, e1: usize, fc1: bool, lc1: u8, c1: usiz
     vcover!(t2 == 2);
     let SeparatedTerm(t, v) = cj(SeparatedTerm(ta, va), SeparatedTerm(tb, vb));
     let shared = lc1 == 0 && f2 == 0;
-    vassume!(!shared || (c1 >= 1 && c2 >= 1));
+    vassume!(!shared || c1 as u128 + c2 as u128 >= 1);
     let c = c1 as u128 + c2 as u128 - if shared { 1 } else { 0 };
     assert!(rep(t, &v, fc1, lc2, c), "C10 the representation relation is preserved by joining two terms");
 }
@@ -563,6 +566,38 @@ fn ob_c10_flat_product_n3(t: u8, vk: u8, a: usize, e: usize, fc: bool, lc: u8, l
     flat_product(t, vk, a, e, fc, lc, lo, hi, 3, c1, c2, c3)
 }
 
+//@ob C10.flat.absent.phantom
+//@ props: C10
+//@ kind: bounded(repetition upper bound enumerated <= 3 or open; the body term symbolic, every variance shape)
+//@ fns: src/token/variance/invariant/term.rs::SeparatedTerm::product src/token/mod.rs::Repetition::finalize<Depth> src/token/variance/mod.rs::TokenVariance::product
+//@ pre: an optional repetition `<w:0,h>` whose body term satisfies rep with edges (fw, lcw) and is not closed by boundaries on both sides
+//@ post: the REAL product term ALSO satisfies rep for a phantom sequence with the body's edges and count 1 if the body begins and ends with text (an empty text run, which merges with neighbouring text) and 0 otherwise -- so the ABSENT repetition takes part in the induction (C10.flat.join) like a leaf; with real neighbours the phantom count equals the count of the path without the body whenever a phantom text run touches real text on one side (the other cases are non-canonical paths or the edge finding C10.optional-edge-text, see C10.flat.absent.first / last)
+fn ob_c10_flat_absent_phantom(t: u8, vk: u8, a: usize, e: usize, fw: u8, lcw: u8, cw: usize, hi: u8) {
+    vassume!(t <= 2 && flat_valid(vk, a, e) && fw <= 2 && lcw <= 2 && cw <= CMAX && hi >= 1 && hi <= 4);
+    let w = SeparatedTerm(mk_termination(t), flat_tv(vk, a, e));
+    vassume!(rep(w.0, &w.1, fw != 0, lcw, cw as u128) && ghost_ok(fw != 0, lcw, cw as u128));
+    let upper = match hi {
+        1 => Some(1),
+        2 => Some(2),
+        3 => Some(3),
+        _ => None,
+    };
+    let branch = mk_repetition(0, upper);
+    vcover!(t == 0 && vk == 4);
+    vcover!(t == 2 && lcw == 2);
+    vcover!(t == 1);
+    let p = match variance::finalize::<Depth>(&branch, Composition::Conjunctive(w)) {
+        Composition::Conjunctive(p) => p,
+        Composition::Disjunctive(d) => {
+            core::mem::forget(d);
+            panic!("C10 product of a conjunctive term is conjunctive")
+        },
+    };
+    core::mem::forget(branch);
+    let phantom: u128 = if t == 0 { 1 } else { 0 };
+    assert!(rep(p.0, &p.1, fw != 0, lcw, phantom), "C10 an absent optional repetition is a phantom leaf of the induction");
+}
+
 // an optional repetition (lower bound 0) that is ABSENT: the neighbours L and R (either may be missing,
 // not both) then form the matched path by themselves. Only the two edge cases are registered: with BOTH
 // neighbours symbolic (three terms) Kani gave no verdict in 20 min outside the known region.
@@ -578,9 +613,9 @@ fn flat_absent(
     let l = SeparatedTerm(mk_termination(t1), flat_tv(vk1, n1, e1));
     let w = SeparatedTerm(mk_termination(t), flat_tv(vk, a, e));
     let r = SeparatedTerm(mk_termination(t2), flat_tv(vk2, n2, e2));
-    vassume!(!has_l || rep(l.0, &l.1, fc1, lc1, c1 as u128));
-    vassume!(rep(w.0, &w.1, fw != 0, lcw, cw as u128));
-    vassume!(!has_r || (rep(r.0, &r.1, f2 != 0, lc2, c2 as u128) && (t2 != 4 || f2 == 2)));
+    vassume!(!has_l || (rep(l.0, &l.1, fc1, lc1, c1 as u128) && ghost_ok(fc1, lc1, c1 as u128)));
+    vassume!(rep(w.0, &w.1, fw != 0, lcw, cw as u128) && ghost_ok(fw != 0, lcw, cw as u128));
+    vassume!(!has_r || (rep(r.0, &r.1, f2 != 0, lc2, c2 as u128) && ghost_ok(f2 != 0, lc2, c2 as u128) && (t2 != 4 || f2 == 2)));
     // the rule checker admits the expression with the body present (T6): no two boundaries adjacent
     vassume!(!has_l || lc1 == 0 || fw == 0);
     vassume!(!has_r || lcw == 0 || f2 == 0);
